@@ -12,4 +12,11 @@ PROPS = {
         ],
         "trusted_base": ["google.golang.org/protobuf/encoding/protowire as the reference implementation"],
     },
+    "C01": {
+        "level": "proof",
+        "n": {"quick": 3000, "thorough": 150000},
+        "gen_needs": [],
+        "assumptions": [],
+        "trusted_base": [],
+    },
 }
